@@ -1,0 +1,191 @@
+//go:build verif
+
+// Verification hook for /verif (endpoint-level harness h-rpc). Add-only, compiled only with
+// `-tags verif`. It starts one real, single-node Server (real Raft over in-memory stores, real
+// RPC endpoints, real FSM) the way the package's own test helpers do, without the testing
+// package, so that the harness can drive KVS / Session / Txn / Catalog endpoints through
+// Server.RPC and read the state machine behind them. Nothing here decides anything.
+
+package consul
+
+import (
+	"fmt"
+	"io"
+	"net"
+	"os"
+	"time"
+
+	"github.com/hashicorp/go-hclog"
+	"github.com/hashicorp/go-uuid"
+	"google.golang.org/grpc/keepalive"
+
+	"github.com/hashicorp/consul/agent/connect"
+	"github.com/hashicorp/consul/agent/consul/fsm"
+	rpcRate "github.com/hashicorp/consul/agent/consul/rate"
+	"github.com/hashicorp/consul/agent/consul/state"
+	"github.com/hashicorp/consul/agent/consul/stream"
+	external "github.com/hashicorp/consul/agent/grpc-external"
+	"github.com/hashicorp/consul/agent/grpc-external/limiter"
+	grpc "github.com/hashicorp/consul/agent/grpc-internal"
+	"github.com/hashicorp/consul/agent/grpc-internal/balancer"
+	"github.com/hashicorp/consul/agent/grpc-internal/resolver"
+	"github.com/hashicorp/consul/agent/pool"
+	"github.com/hashicorp/consul/agent/router"
+	"github.com/hashicorp/consul/agent/rpc/middleware"
+	"github.com/hashicorp/consul/agent/structs"
+	"github.com/hashicorp/consul/agent/token"
+	"github.com/hashicorp/consul/sdk/freeport"
+	"github.com/hashicorp/consul/tlsutil"
+	"github.com/hashicorp/consul/types"
+)
+
+// VerifServer is a running single-node server plus what is needed to stop it.
+type VerifServer struct {
+	Server *Server
+	dir    string
+	ports  []int
+	unreg  []func()
+}
+
+// VerifNewServer starts a bootstrapped single-node server in datacenter dc1. mutate may adjust
+// the configuration (ACLs, session TTL bounds ...) before the server is created.
+func VerifNewServer(name string, mutate func(*Config)) (*VerifServer, error) {
+	dir, err := os.MkdirTemp("", "verif-consul-")
+	if err != nil {
+		return nil, err
+	}
+	ports, err := freeport.Take(4)
+	if err != nil {
+		return nil, err
+	}
+	c := DefaultConfig()
+	c.NodeName = name
+	c.Bootstrap = true
+	c.Datacenter = "dc1"
+	c.PrimaryDatacenter = "dc1"
+	c.DataDir = dir
+	c.DevMode = true
+	c.RPCAddr = &net.TCPAddr{IP: []byte{127, 0, 0, 1}, Port: ports[0]}
+	id, err := uuid.GenerateUUID()
+	if err != nil {
+		return nil, err
+	}
+	c.NodeID = types.NodeID(id)
+	for _, m := range []struct {
+		bind *string
+		port *int
+		adv  *int
+	}{
+		{&c.SerfLANConfig.MemberlistConfig.BindAddr, &c.SerfLANConfig.MemberlistConfig.BindPort, &c.SerfLANConfig.MemberlistConfig.AdvertisePort},
+		{&c.SerfWANConfig.MemberlistConfig.BindAddr, &c.SerfWANConfig.MemberlistConfig.BindPort, &c.SerfWANConfig.MemberlistConfig.AdvertisePort},
+	} {
+		*m.bind = "127.0.0.1"
+	}
+	c.SerfLANConfig.MemberlistConfig.BindPort, c.SerfLANConfig.MemberlistConfig.AdvertisePort = ports[1], ports[1]
+	c.SerfWANConfig.MemberlistConfig.BindPort, c.SerfWANConfig.MemberlistConfig.AdvertisePort = ports[2], ports[2]
+	c.RaftConfig.LeaderLeaseTimeout = 100 * time.Millisecond
+	c.RaftConfig.HeartbeatTimeout = 200 * time.Millisecond
+	c.RaftConfig.ElectionTimeout = 200 * time.Millisecond
+	c.ReconcileInterval = 300 * time.Millisecond
+	c.AutopilotConfig.ServerStabilizationTime = 100 * time.Millisecond
+	c.ServerHealthInterval = 50 * time.Millisecond
+	c.AutopilotInterval = 100 * time.Millisecond
+	c.CoordinateUpdatePeriod = 100 * time.Millisecond
+	c.LeaveDrainTime = 1 * time.Millisecond
+	c.RPCHoldTimeout = 10 * time.Second
+	c.GRPCPort = ports[3]
+	c.ConnectEnabled = true
+	c.CAConfig = &structs.CAConfiguration{
+		ClusterID: connect.TestClusterID,
+		Provider:  structs.ConsulCAProvider,
+		Config: map[string]interface{}{
+			"PrivateKey": "", "RootCert": "", "LeafCertTTL": "72h", "IntermediateCertTTL": "288h",
+		},
+	}
+	c.PeeringEnabled = true
+	if mutate != nil {
+		mutate(c)
+	}
+
+	logger := hclog.NewInterceptLogger(&hclog.LoggerOptions{Name: name, Level: hclog.Off, Output: io.Discard})
+	tls, err := tlsutil.NewConfigurator(c.TLSConfig, logger)
+	if err != nil {
+		return nil, err
+	}
+	vs := &VerifServer{dir: dir, ports: ports}
+	resolverBuilder := resolver.NewServerResolverBuilder(resolver.Config{Datacenter: c.Datacenter, AgentType: "server",
+		Authority: fmt.Sprintf("verif-%s-%d", name, ports[0])})
+	resolver.Register(resolverBuilder)
+	vs.unreg = append(vs.unreg, func() { resolver.Deregister(resolverBuilder.Authority()) })
+	balancerBuilder := balancer.NewBuilder(resolverBuilder.Authority(), logger)
+	balancerBuilder.Register()
+	vs.unreg = append(vs.unreg, balancerBuilder.Deregister)
+	r := router.NewRouter(logger, c.Datacenter, fmt.Sprintf("%s.%s", c.NodeName, c.Datacenter), grpc.NewTracker(resolverBuilder, balancerBuilder))
+	connPool := &pool.ConnPool{
+		Server: false, SrcAddr: c.RPCSrcAddr, Logger: logger.StandardLogger(&hclog.StandardLoggerOptions{InferLevels: true}),
+		MaxTime: 2 * time.Minute, MaxStreams: 4, TLSConfigurator: tls, Datacenter: c.Datacenter,
+		DefaultQueryTime: c.DefaultQueryTime, MaxQueryTime: c.MaxQueryTime, RPCHoldTimeout: c.RPCHoldTimeout,
+	}
+	connPool.SetRPCClientTimeout(c.RPCClientTimeout)
+	deps := Deps{
+		EventPublisher:  stream.NewEventPublisher(10 * time.Second),
+		Logger:          logger,
+		TLSConfigurator: tls,
+		Tokens:          new(token.Store),
+		Router:          r,
+		ConnPool:        connPool,
+		GRPCConnPool: grpc.NewClientConnPool(grpc.ClientConnPoolConfig{
+			Servers: resolverBuilder, TLSWrapper: grpc.TLSWrapper(tls.OutgoingRPCWrapper()), UseTLSForDC: tls.UseTLS,
+			DialingFromServer: true, DialingFromDatacenter: c.Datacenter,
+		}),
+		LeaderForwarder:          resolverBuilder,
+		NewRequestRecorderFunc:   middleware.NewRequestRecorder,
+		GetNetRPCInterceptorFunc: middleware.GetNetRPCInterceptor,
+		EnterpriseDeps:           EnterpriseDeps{},
+		XDSStreamLimiter:         limiter.NewSessionLimiter(),
+		Registry:                 NewTypeRegistry(),
+	}
+	up := make(chan struct{})
+	c.NotifyListen = func() { close(up) }
+	grpcServer := external.NewServer(logger.Named("grpc.external"), nil, tls, rpcRate.NullRequestLimitsHandler(), keepalive.ServerParameters{}, nil)
+	srv, err := NewServer(c, deps, grpcServer, nil, logger)
+	if err != nil {
+		vs.Stop()
+		return nil, err
+	}
+	vs.Server = srv
+	<-up
+	return vs, nil
+}
+
+// WaitLeader blocks until the server is the established leader and has written its barrier.
+func (v *VerifServer) WaitLeader(timeout time.Duration) error {
+	deadline := time.Now().Add(timeout)
+	for time.Now().Before(deadline) {
+		if v.Server.IsLeader() && v.Server.isReadyForConsistentReads() {
+			return nil
+		}
+		time.Sleep(20 * time.Millisecond)
+	}
+	return fmt.Errorf("no leader after %s", timeout)
+}
+
+// State returns the state store behind the server's FSM.
+func (v *VerifServer) State() *state.Store { return v.Server.fsm.State() }
+
+// FSM returns the server's FSM.
+func (v *VerifServer) FSM() *fsm.FSM { return v.Server.fsm }
+
+// LastIndex returns the last raft index applied by the server.
+func (v *VerifServer) LastIndex() uint64 { return v.Server.raft.AppliedIndex() }
+
+func (v *VerifServer) Stop() {
+	if v.Server != nil {
+		_ = v.Server.Shutdown()
+	}
+	for _, f := range v.unreg {
+		f()
+	}
+	freeport.Return(v.ports)
+	_ = os.RemoveAll(v.dir)
+}
